@@ -338,7 +338,7 @@ pub fn c07() -> i32 {
         // thorough: the same grid under other latencies, input programs and the other predictor
         let scns = if t { vary(scns) } else { scns };
         let n = scns.len();
-        let cfg = ExploreCfg { k: Some(0), wall: Duration::from_secs(if t { 1200 } else { 40 }), ..Default::default() };
+        let cfg = ExploreCfg { k: Some(0), wall: Duration::from_secs(if t { 1200 } else { 40 }), variants: crate::explore::NET_MENU, variant_every: if t { 1 } else { 3 }, ..Default::default() };
         let out = explore(&scns, &cfg, &judge);
         rep.absorb("deaths: every moment x every subset of the last packets lost", out, &props, json!({"k": 0, "scenarios": n}));
     }
@@ -428,7 +428,7 @@ pub fn c07() -> i32 {
             }
         }
         let n = scns.len();
-        let cfg = ExploreCfg { k: Some(0), wall: Duration::from_secs(if t { 900 } else { 30 }), ..Default::default() };
+        let cfg = ExploreCfg { k: Some(0), wall: Duration::from_secs(if t { 900 } else { 30 }), variants: crate::explore::NET_MENU, variant_every: if t { 1 } else { 3 }, ..Default::default() };
         let out = explore(&scns, &cfg, &judge);
         rep.absorb("silences of every length from 1 round to timeout+4 rounds, one or both directions", out, &props, json!({"k": 0, "scenarios": n}));
     }
@@ -499,7 +499,7 @@ pub fn c07() -> i32 {
             }
         }
         let n = scns.len();
-        let cfg = ExploreCfg { k: Some(0), wall: Duration::from_secs(if t { 900 } else { 30 }), ..Default::default() };
+        let cfg = ExploreCfg { k: Some(0), wall: Duration::from_secs(if t { 900 } else { 30 }), variants: crate::explore::NET_MENU, variant_every: if t { 1 } else { 3 }, ..Default::default() };
         let out = explore(&scns, &cfg, &judge);
         rep.absorb("explicit disconnect_player at every round (the other peer keeps sending: late input must not be used)", out, &props, json!({"k": 0, "scenarios": n}));
     }
